@@ -10,6 +10,9 @@
 // Then: READY <lock file path> <pid>; Lock(ctx) of the real (instrumented copy of the current)
 // WorkspaceLocker -- every file-system call blocks on the controller, see harness/go/hook;
 // HELD; waits for the token "unlock"; Unlock(); DONE ok|err; waits for "exit".
+// The context passed to Lock is cancellable and its cancel func is registered with the hook: the
+// token "cancel" (accepted while the locker waits for its timer) cancels it.  When Lock then returns
+// an error: GAVEUP <error>; waits for "exit" (the process stays alive, like after DONE).
 package main
 
 import (
@@ -41,9 +44,16 @@ func main() {
 	if tok := zzhook.Recv(); zzhook.Enabled() && tok != "start" {
 		os.Exit(96)
 	}
-	ctx := console.WithLogger(context.Background(), console.InitLogger())
+	base, cancel := context.WithCancel(context.Background())
+	zzhook.OnCancel = cancel
+	ctx := console.WithLogger(base, console.InitLogger())
 	locker := locking.NewWorkspaceLocker()
 	if err := locker.Lock(ctx); err != nil {
+		if base.Err() != nil {
+			zzhook.Send("GAVEUP\t" + err.Error())
+			zzhook.Recv()
+			return
+		}
 		zzhook.Send("ERR\tlock\t" + err.Error())
 		os.Exit(1)
 	}
